@@ -57,6 +57,20 @@ def build_harness():
     return time.time() - t0
 
 
+def build_harness_unoptimised():
+    """A second build of the harness with the library at opt-level 0 (what `cargo build` gives a user by default): stack
+    depth depends on it - no tail calls are eliminated, frames are at their largest.  Own target directory."""
+    env = dict(os.environ)
+    env["CARGO_NET_OFFLINE"] = "true"
+    env["CARGO_TARGET_DIR"] = os.path.join(HARNESS, "target0")
+    p = subprocess.run(["cargo", "build", "--offline", "--quiet", "--config", "profile.dev.package.oxidize-pdf.opt-level=0"], cwd=HARNESS, env=env,
+                       stdout=subprocess.PIPE, stderr=subprocess.STDOUT, text=True)
+    if p.returncode != 0:
+        log(p.stdout[-6000:])
+        die_tool("unoptimised harness build failed")
+    return os.path.join(HARNESS, "target0", "debug", "vh")
+
+
 def vh(args, stdin=None, timeout=1800, env=None, check=True):
     """Run the harness binary; returns (returncode, stdout, stderr)."""
     e = dict(os.environ)
